@@ -10,6 +10,7 @@ dynamics under test).
 import contextlib
 import copy
 import gc
+import itertools
 import os
 import random
 import shutil
@@ -34,6 +35,13 @@ def queries_for(spec):
                 qs.append(("attr:" + a, {}))
         _Q[spec.name] = qs
     return _Q[spec.name]
+
+
+def state_queries_for(spec):
+    """queries_for plus the state attributes only C01 reads (attributes
+    that documented state-changing calls re-assign)."""
+    return queries_for(spec) + [("attr:" + a, {})
+                                for a in getattr(spec, "extra_attrs", ())]
 
 
 def net_query_names():
@@ -89,7 +97,9 @@ class C01(Machine):
     run_wall_cap = 60.0
     minimise_by = "victim"
     rule = ("two layers: (a) pair sweep -- for a fixed seeded input per "
-            "class, every (mutator, query pattern): build; q; fillers; m; q; "
+            "class, every (mutator, query pattern): build; [earlier mutators]; q; "
+            "fillers; m; q (small classes: every chain of earlier mutators, "
+            "the same mutator repeating its arguments half of the time); "
             "(b) random histories of 6..30 ops over 1..3 live objects "
             "(build / query / mutate / discard+rebuild).  Query patterns are "
             "discovered by introspection. Non-trivial: some query pattern "
@@ -147,12 +157,28 @@ class C01(Machine):
                 InteractingNetworks
             rnd = random.Random(derive(seed, "c01-pair-sample"))
             out = []
+            # classes with few mutators and queries: every chain of up to
+            # two (three for the smallest) earlier mutators in front of the
+            # pair -- a mutator that undoes or repeats an earlier one is
+            # where stale results hide
+            for s in SPECS:
+                muts = [mu.name for mu in s.mutators()]
+                qs = state_queries_for(s) if muts else []
+                if not muts or len(muts) * len(qs) > 150:
+                    continue
+                depth = 2 if len(muts) * len(qs) <= 30 else 1
+                chains = [c for d in range(1, depth + 1)
+                          for c in itertools.product(muts, repeat=d)]
+                for pre in chains:
+                    for mn in muts:
+                        for (qn, kw) in qs:
+                            out.append((s.name, mn, qn, kw, pre))
             for s in SPECS:
                 muts = s.mutators()
                 if not muts:
                     continue
                 cls = s.cls()
-                qs = queries_for(s)
+                qs = state_queries_for(s)
                 if tier != "thorough" and cls not in (Network,
                                                       InteractingNetworks):
                     own, shared = [], []
@@ -185,7 +211,8 @@ class C01(Machine):
         a, o = S["args"], S["ops"]
         rounds = 3 if tier == "thorough" else 1
         if is_pair and (k // 3) * 2 + (k % 3) < rounds * len(pairs):
-            cname, mname, qn, kw = pairs[p % len(pairs)]
+            cname, mname, qn, kw = pairs[p % len(pairs)][:4]
+            pre = (pairs[p % len(pairs)] + ((),))[4]
             spec = BY_NAME[cname]
             mu = next(m for m in spec.mutators() if m.name == mname)
             ms = derive(seed, "model", cname, p // len(pairs))
@@ -194,14 +221,26 @@ class C01(Machine):
                 if mu.when(model):
                     ms += j
                     break
-            qs = queries_for(spec)
-            ops = [{"op": "build", "obj": 0, "cls": cname, "ms": ms},
-                   {"op": "query", "obj": 0, "name": qn, "kw": kw}]
+            qs = state_queries_for(spec)
+            ops = [{"op": "build", "obj": 0, "cls": cname, "ms": ms}]
+            # earlier state changes; the same mutator later in the run gets
+            # the same arguments half of the time ("the same call again")
+            used = {}
+            if not pre and len(spec.mutators()) > 1 and a.random() < 0.3:
+                names = [m_.name for m_ in spec.mutators()]
+                pre = (names[a.randrange(len(names))],)
+            for mn in pre:
+                used[mn] = used[mn] if mn in used and a.random() < 0.5 \
+                    else a.randrange(10 ** 9)
+                ops.append({"op": "mutate", "obj": 0, "name": mn,
+                            "as": used[mn]})
+            ops.append({"op": "query", "obj": 0, "name": qn, "kw": kw})
             for _ in range(a.randrange(0, 3)):
                 fn, fk = qs[a.randrange(len(qs))]
                 ops.append({"op": "query", "obj": 0, "name": fn, "kw": fk})
             ops.append({"op": "mutate", "obj": 0, "name": mname,
-                        "as": a.randrange(10 ** 9)})
+                        "as": used[mname] if mname in used
+                        and a.random() < 0.5 else a.randrange(10 ** 9)})
             ops.append({"op": "query", "obj": 0, "name": qn, "kw": kw})
             return {"property": self.pid, "seed": seed, "run": idx,
                     "config": {"lru": lru, "layer": "pair"}, "ops": ops}
@@ -209,6 +248,8 @@ class C01(Machine):
         cands = [s for s in SPECS if s.mutators()]
         # the one class with durable state gets a larger share
         cands += [s for s in cands if s.name == "MutualInfoClimateNetwork"] * 3
+        # small classes are cheap and get few pair runs: more histories
+        cands += [s for s in cands if not s.net_level] * 2
         spec = cands[a.randrange(len(cands))]
         nobj = a.choice((1, 1, 2, 3))
         ops = []
@@ -219,9 +260,10 @@ class C01(Machine):
             ops.append({"op": "build", "obj": i, "cls": spec.name,
                         "ms": build_ms[i]})
             live.append(i)
-        qs = queries_for(spec)
+        qs = state_queries_for(spec)
         muts = spec.mutators()
         hot = [qs[a.randrange(len(qs))] for _ in range(4)]
+        last_as = {}
         for _ in range(o.randrange(6, 31)):
             i = live[o.randrange(len(live))]
             c = o.random()
@@ -231,8 +273,12 @@ class C01(Machine):
                 ops.append({"op": "query", "obj": i, "name": qn, "kw": kw})
             elif c < 0.93:
                 mu = muts[o.randrange(len(muts))]
+                # a quarter of the calls repeat the arguments this mutator
+                # got last time in this run
                 mop = {"op": "mutate", "obj": i, "name": mu.name,
-                       "as": o.randrange(10 ** 9)}
+                       "as": last_as[mu.name] if mu.name in last_as
+                       and o.random() < 0.25 else o.randrange(10 ** 9)}
+                last_as[mu.name] = mop["as"]
                 ops.append(mop)
                 if spec.name == "MutualInfoClimateNetwork" and \
                         mu.name == "set_winter_only" and o.random() < 0.6:
